@@ -111,6 +111,8 @@ def symbolic_for(ip, node, it, fr):
         # 2. an arbitrary iteration preserves the invariant
         k = V.fresh("k", V.I)
         ip.path.assume(z3.And(k >= 0, k < n))
+        for inst in ip.path.instances(k):          # quantified facts known so far, at the iteration index
+            ip.path.assume(inst)
         ip.path.assume(inv_at(k, "assume"))
         ip.assign_target(node.target, elem(k), fr)
         try:
